@@ -43,6 +43,41 @@ pub fn run(em: &mut Emit, thorough: bool, seed: u64) {
             }
         }
     }
+    // operands in every ownership state a host can produce: uniquely owned, shared, and uniquely
+    // owned while a Weak observer exists (Arc::get_mut then fails although strong_count is 1)
+    for n in [0usize, 1, 3, 40] {
+        for m in [0usize, 2] {
+            for kind in 0..3 {
+                for (weak_l, weak_r, share_l) in [(true, false, false), (false, true, false), (true, true, false), (false, false, true), (true, false, true)] {
+                    let mk = |len: usize, base: i64| -> Value {
+                        match kind {
+                            0 => Value::List(Arc::new((0..len as i64).map(|i| Value::Int(base + i)).collect())),
+                            1 => Value::String(Arc::new("ab".repeat(len))),
+                            _ => Value::Bytes(Arc::new(vec![7u8; len])),
+                        }
+                    };
+                    let (a, b) = (mk(n, 0), mk(m, 100));
+                    let req = format!("(binop add {} {})", sx_value_iter_order(&a), sx_value_iter_order(&b));
+                    let disp = format!("{} + {} (weak observers: {} {}, shared left: {})", sx_value(&a), sx_value(&b), weak_l, weak_r, share_l);
+                    let imp = guarded(move || {
+                        let observe = |v: &Value| -> Box<dyn std::any::Any> {
+                            match v {
+                                Value::List(x) => Box::new(Arc::downgrade(x)),
+                                Value::String(x) => Box::new(Arc::downgrade(x)),
+                                Value::Bytes(x) => Box::new(Arc::downgrade(x)),
+                                _ => Box::new(()),
+                            }
+                        };
+                        let _wl = if weak_l { Some(observe(&a)) } else { None };
+                        let _wr = if weak_r { Some(observe(&b)) } else { None };
+                        let _keep = if share_l { Some(a.clone()) } else { None };
+                        sx_result(&(a + b))
+                    });
+                    em.case(&req, &imp, "nt=1;kind=direct-add-ownership", &disp);
+                }
+            }
+        }
+    }
     // text-consuming built-ins, string indexing and comparison over strings that mix digits,
     // unit letters, signs and multi-byte characters at every position (held by the context, so
     // that no literal spelling is involved)
@@ -128,6 +163,10 @@ pub fn run(em: &mut Emit, thorough: bool, seed: u64) {
             emit_program(em, &format!("s.matches('k{}z') || 'q{}'.matches('q{}')", i, i, i % 7), &spec, "nt=1;kind=c02-many-patterns");
         }
         emit_program(em, &format!("[{}].exists(p, s.matches(p))", pats.join(", ")), &spec, "nt=1;kind=c02-many-patterns");
+        // beyond a thousand distinct patterns on one thread, in one execution
+        let many: Vec<String> = (0..1100).map(|i| format!("'w{}y'", i)).collect();
+        emit_program(em, &format!("[{}].filter(p, s.matches(p)).size()", many.join(", ")), &spec, "nt=1;kind=c02-many-patterns");
+        emit_program(em, &format!("[{}].map(p, 'w1099y w512y'.matches(p)).filter(x, x).size()", many.join(", ")), &spec, "nt=1;kind=c02-many-patterns");
     }
     // host functions with every kind of extractor called with too few, enough and too many
     // arguments, in both call styles
